@@ -16,7 +16,7 @@ FUNCTIONS = ["pedal.types.operations.apply_binary_operation + VALID_BINOP_TYPES"
              "pedal.types.new_types.is_subtype/widest_type/TupleType/ListType/...", "pedal.tifa.tifa_visitor.visit_BinOp/visit_Compare/visit_Tuple", "pedal.tifa.tifa_analysis"]
 BOUNDS = {"operators": "12 binary + 6 comparisons", "operands": "17-value grid (table obligations), 8-value grid (through tifa_analysis)",
           "values": "strings <= 2 chars, containers <= 2 elements, depth <= 2"}
-OUTSIDE = ["expression trees deeper than one operator", "bool / None / dict / set operands of operators (the property lists int, float, str, list, tuple)",
+OUTSIDE = ["expression trees deeper than two operators", "bool / None / dict / set operands of operators (the property lists int, float, str, list, tuple)",
            "unary operators", "over-reporting (pedal objecting where CPython succeeds) is not a violation of the property"]
 ASSUMPTIONS = ["operand grids are finite menus enumerated by the solver (the reference side is CPython evaluating concrete operands)",
                "FeedbackFieldWrapper copy-safety shim"]
@@ -32,6 +32,8 @@ def obligations(tier):
     for f, w in [("value_scalar", "scalars"), ("value_list", "lists of int|str"), ("value_tuple", "tuples incl. nested and empty"),
                  ("value_dict", "dicts"), ("value_set", "sets incl. mixed element types"), ("value_nested", "nested lists")]:
         obs.append(Ob("C19." + f, F, f, 200, what="value typing (%s): a Type, subtype of itself twice in a row, conforms to the normalised Python type" % w))
+    for k in (range(12) if tier == "thorough" else (0, 2, 4, 6)):
+        obs.append(Ob("C19.tifa_tree", F, "tifa_tree", 400, part=str(k), what="depth-2 trees z = (x op1 y) op2 w / x op2 (y op1 w) through tifa_analysis (op1 = partition): TypeError anywhere => incompatible_types; else type of z admits the value"))
     obs.append(Ob("C19.numeric_twins", F, "numeric_twins", 120, what="an int and the float equal to it typed in the same process, both orders: each keeps the type of its own Python type; 1 << 1.0 and 'ab' * 1.0 still impossible"))
     obs.append(Ob("C19.binop_reach", F, "binop_reach", 60, expect="refute", what="twin: a TypeError cell is reached and reported"))
     return obs
